@@ -13,7 +13,21 @@ def dominated_region(body, head, switch_bb=None):
     return {x for x in seen if not body.is_cleanup(x)}
 
 
-def enum_switch(body, adt):
+def place_type(facts, body, pl):
+    """type string of a place with field projections (uses ADT facts for field types)"""
+    ty = body.local_ty(pl[0])
+    for p in pl[1]:
+        if isinstance(p, list) and p[0] == "f" and facts is not None:
+            a = facts.adts.get(p[3]) or facts.adts.get(p[3].rsplit("::", 1)[0])
+            if a:
+                for v in a["variants"]:
+                    for fname, fty, _vis in v["fields"]:
+                        if fname == p[2]:
+                            ty = fty
+    return ty
+
+
+def enum_switch(body, adt, facts=None):
     """the widest switch on the discriminant of a local of type `adt` (by reference or value).
     returns (bb, {variant_index: target}, otherwise)"""
     best = None
@@ -23,7 +37,7 @@ def enum_switch(body, adt):
             continue
         for st in blk["s"]:
             if st[0] == "a" and st[2][0] == "discr" and op_local(t[1]) == st[1][0]:
-                ty = body.local_ty(st[2][1][0])
+                ty = place_type(facts, body, st[2][1]) if st[2][1][1] else body.local_ty(st[2][1][0])
                 if adt in ty:
                     if best is None or len(t[2]) > len(best[1]):
                         best = (bi, {v: tb for v, tb in t[2]}, t[3])
